@@ -169,13 +169,38 @@ pub mod csv {
         dir_path.join(fname_only)
     }
 
+    fn rates_csv_tmp_file_path(dir_path: &std::path::Path, year: u32) -> PathBuf {
+        let fname_only = format!("rates-{}.csv.tmp", year);
+        dir_path.join(fname_only)
+    }
+
+    /// Opens a temporary file to write the rates into. It only replaces the
+    /// live cache file once it is complete (see commit_rates_csv_file), so that
+    /// an interrupted write can never leave a truncated, but still parseable,
+    /// cache file behind.
     fn open_rates_csv_file_write(
         dir_path: &std::path::Path,
         year: u32,
     ) -> Result<File, SError> {
-        let file_path = rates_csv_file_path(dir_path, year);
+        let tmp_file_path = rates_csv_tmp_file_path(dir_path, year);
         crate::util::os::mk_writable_dir(dir_path).map_err(|e| e.to_string())?;
-        File::create(file_path).map_err(|e| e.to_string())
+        File::create(tmp_file_path).map_err(|e| e.to_string())
+    }
+
+    /// Flushes and syncs the temporary file, then atomically moves it over the
+    /// live cache file.
+    fn commit_rates_csv_file(
+        csv_w: csv::Writer<File>,
+        dir_path: &std::path::Path,
+        year: u32,
+    ) -> Result<(), SError> {
+        let file = csv_w.into_inner().map_err(|e| e.to_string())?;
+        file.sync_all().map_err(|e| e.to_string())?;
+        std::fs::rename(
+            rates_csv_tmp_file_path(dir_path, year),
+            rates_csv_file_path(dir_path, year),
+        )
+        .map_err(|e| e.to_string())
     }
 
     fn open_rates_csv_file_read(
@@ -220,7 +245,7 @@ pub mod csv {
                     ])
                     .map_err(|e| e.to_string())?;
             }
-            let r = csv_w.flush().map_err(|e| e.to_string());
+            let r = commit_rates_csv_file(csv_w, &self.dir_path, year);
             if r.is_ok() {
                 trace!("CsvRatesCache::write_rates flushed ok");
             } else {
